@@ -33,8 +33,13 @@ def gen(rnd):
 
 def bad_init_scripts():
     out = []
-    for (r, e, t) in [(0, 7200, 600), (86401, 7200, 600), (3600, 599, 600), (3600, 172801, 600), (3600, 7200, 0), (3600, 7200, 7201),
-                      (1, 600, 1), (86400, 172800, 7200)]:
+    # every boundary of every field with the other two fields valid, the special value 0 everywhere, and products of small / zero values
+    # (a "0 means derive it from the others" shortcut must not let a value outside its range through)
+    R_, E_, T_ = [0, 1, 2, 299, 300, 86399, 86400, 86401, 2 ** 31, 2 ** 32 - 1], [0, 1, 599, 600, 601, 172799, 172800, 172801, 2 ** 31, 2 ** 32 - 1], \
+        [0, 1, 2, 7199, 7200, 7201, 2 ** 31, 2 ** 32 - 1]
+    grid = [(r, 7200, 600) for r in R_] + [(3600, e, 600) for e in E_] + [(3600, 7200, t) for t in T_]
+    grid += [(r, 0, 600) for r in (1, 100, 299, 300, 301, 86400)] + [(0, 0, 0), (1, 0, 0), (0, 600, 1), (1, 600, 0), (100, 200, 600), (86400, 172800, 7200), (1, 600, 1)]
+    for (r, e, t) in grid:
         s = R.Script(refresh=r, expire=e, retry=t, mode=0)
         s.opens = [True]
         out.append((s, (r, e, t)))
